@@ -236,6 +236,9 @@ func (f *FT) fresh(base string) string {
 // ---- kinds and types ------------------------------------------------------
 
 func (f *FT) kindOfType(t ast.Expr) Kind {
+	if k, ok := f.ps.GoTypes[f.norm(t)]; ok {
+		return k
+	}
 	switch x := t.(type) {
 	case *ast.Ident:
 		switch x.Name {
@@ -343,6 +346,9 @@ func (f *FT) zero(k Kind) (string, error) {
 	if z, ok := f.ps.Zero[k]; ok {
 		return z, nil
 	}
+	if _, ok := f.ps.Lists[k]; ok {
+		return "[]", nil
+	}
 	return "", fmt.Errorf("no zero value for kind %s", k)
 }
 
@@ -377,6 +383,13 @@ func (f *FT) norm(e ast.Expr) string {
 		return "*" + f.norm(x.X)
 	}
 	return f.src(e)
+}
+
+// norm1: the source text of a statement on one line
+func (f *FT) norm1(n ast.Node) string {
+	var b bytes.Buffer
+	printer.Fprint(&b, f.pkg.fset, n)
+	return strings.Join(strings.Fields(b.String()), " ")
 }
 
 func (f *FT) isDropped(path string) bool {
@@ -454,6 +467,9 @@ func (f *FT) run(fd *ast.FuncDecl) (string, error) {
 		if f.monadic {
 			return "GVal " + paren(tupleTerm(ts)), nil
 		}
+		if f.fs.StopAt != "" {
+			return "Some " + paren(tupleTerm(ts)), nil
+		}
 		return tupleTerm(ts), nil
 	}
 	ctx.onFall = func(*Env) (string, error) {
@@ -467,7 +483,12 @@ func (f *FT) run(fd *ast.FuncDecl) (string, error) {
 		return "", err
 	}
 	if f.monadic {
+		if f.fs.StopAt != "" {
+			return "", errors.New("prefix translation (stop_at) of a function that may panic or loop")
+		}
 		rt = "gen_res " + paren(rt)
+	} else if f.fs.StopAt != "" {
+		rt = "option " + paren(rt)
 	}
 	var b strings.Builder
 	for _, a := range f.aux {
@@ -555,6 +576,9 @@ func (f *FT) wrapGuards(gs []guard, body string, ctx *Ctx, n ast.Node) (string, 
 func (f *FT) stmts(list []ast.Stmt, env *Env, ctx *Ctx) (string, error) {
 	if len(list) == 0 {
 		return ctx.onFall(env)
+	}
+	if ctx.main && f.fs.StopAt != "" && f.inlining == 0 && strings.Contains(f.norm1(list[0]), f.fs.StopAt) {
+		return "None", nil // end of the translated prefix
 	}
 	return f.stmt(list[0], env, ctx, func(e *Env) (string, error) { return f.stmts(list[1:], e, ctx) })
 }
